@@ -22,12 +22,13 @@ type SpecEnv struct {
 	st    *State
 	old   *State
 	depth int
+	topLevel bool // names are those of the function under verification (not a callee's contract)
 	rangeKey string     // ghost visited-set of the map iteration of the loop being specified
 	rangeMap types.Type
 }
 
 func (env *SpecEnv) child() *SpecEnv {
-	n := &SpecEnv{e: env.e, pkg: env.pkg, vars: map[string]Val{}, st: env.st, old: env.old, depth: env.depth + 1, rangeKey: env.rangeKey, rangeMap: env.rangeMap}
+	n := &SpecEnv{e: env.e, pkg: env.pkg, vars: map[string]Val{}, st: env.st, old: env.old, depth: env.depth + 1, rangeKey: env.rangeKey, rangeMap: env.rangeMap, topLevel: env.topLevel}
 	for k, v := range env.vars {
 		n.vars[k] = v
 	}
@@ -37,7 +38,7 @@ func (env *SpecEnv) child() *SpecEnv {
 // baseEnv: names visible in the function under verification: params, receiver, free vars,
 // named locals held in Allocs.
 func (e *Exec) baseEnv(fr *Frame, st *State) *SpecEnv {
-	env := &SpecEnv{e: e, pkg: fr.fn.Pkg.Pkg, vars: map[string]Val{}, st: st, old: e.entry}
+	env := &SpecEnv{e: e, pkg: fr.fn.Pkg.Pkg, vars: map[string]Val{}, st: st, old: e.entry, topLevel: fr.depth == 0}
 	if fr.fn.Pkg == nil && fr.fn.Parent() != nil {
 		env.pkg = fr.fn.Parent().Pkg.Pkg
 	}
@@ -302,6 +303,18 @@ func (env *SpecEnv) eval(x *SExpr) (Val, error) {
 		if err != nil {
 			return Val{}, err
 		}
+		if x.Tok == "forall" && len(x.Vars) == 1 {
+			// explicit triggers: the element reads indexed by the bound variable (solvers do not
+			// infer patterns through bit-vector arithmetic)
+			qn := child.vars[x.Vars[0].Name].S
+			if pats := selectPatterns(b, qn); len(pats) > 0 && len(pats) <= 6 {
+				var ps []string
+				for _, p := range pats {
+					ps = append(ps, ":pattern ("+p+")")
+				}
+				return Val{T: tBool, S: "(forall (" + strings.Join(binders, " ") + ") (! " + b + " " + strings.Join(ps, " ") + "))"}, nil
+			}
+		}
 		return Val{T: tBool, S: "(" + x.Tok + " (" + strings.Join(binders, " ") + ") " + b + ")"}, nil
 	}
 	return Val{}, fmt.Errorf("cannot evaluate %s", x)
@@ -464,6 +477,9 @@ func (env *SpecEnv) pkgFor(T types.Type) *types.Package {
 func (env *SpecEnv) index(a, i Val) (Val, error) {
 	e := env.e
 	i, _ = env.coerce(i, tInt)
+	if w, _, ok := intInfo(i.T); ok && w == 64 && i.S != "" && !reBound.MatchString(i.S) && !isLit(i.S) {
+		e.noteIdx(i.S)
+	}
 	switch u := a.T.Underlying().(type) {
 	case *types.Slice:
 		idx := e.toBV64(i)
@@ -686,6 +702,13 @@ func (env *SpecEnv) evalCall(x *SExpr) (Val, error) {
 		case "old":
 			c := env.child()
 			c.st = env.old
+			// inside old(), parameter names denote their values on entry even if the function
+			// reassigns them (the loop variable p in `p = p[j+1:]` vs. the argument p)
+			if env.topLevel {
+				for k, v := range e.params {
+					c.vars[k] = v
+				}
+			}
 			return c.eval(args[0])
 		case "len", "cap":
 			a, err := env.eval(args[0])
@@ -829,6 +852,21 @@ func (env *SpecEnv) evalCall(x *SExpr) (Val, error) {
 				return Val{}, err
 			}
 			return Val{T: tString, S: e.concat(a.S, b.S, "true")}, nil
+		case "suffixof":
+			// p is a suffix view of q: same backing array, same end, starts at or after q's start
+			a, err := env.eval(args[0])
+			if err != nil {
+				return Val{}, err
+			}
+			b, err := env.eval(args[1])
+			if err != nil {
+				return Val{}, err
+			}
+			if kindOf(a.T) != kSlice || kindOf(b.T) != kSlice {
+				return Val{}, fmt.Errorf("suffixof() of non-slices")
+			}
+			return Val{T: tBool, S: mkAnd(mkEq(a.sBase(), b.sBase()), mkEq(bvAdd(a.sOff(), a.sLen()), bvAdd(b.sOff(), b.sLen())),
+				app("bvsle", b.sOff(), a.sOff()), app("bvsle", a.sLen(), b.sLen()))}, nil
 		case "disjoint":
 			// two slices do not share a backing array
 			a, err := env.eval(args[0])
@@ -1368,4 +1406,106 @@ func (env *SpecEnv) applyFold(fd *FoldDecl, args []*SExpr) (Val, error) {
 		return Val{}, fmt.Errorf("fold %s: %v", fd.Name, stepErr)
 	}
 	return Val{T: listType, S: t}, nil
+}
+
+// selectPatterns: the (select A I) subterms of t whose index I mentions the bound variable q
+// while A does not (candidate triggers).
+func selectPatterns(t, q string) []string {
+	seen := map[string]bool{}
+	var out []string
+	for i := 0; i+8 <= len(t); i++ {
+		if !strings.HasPrefix(t[i:], "(select ") {
+			continue
+		}
+		// find the matching close
+		depth, j := 0, i
+		inq := false
+		for ; j < len(t); j++ {
+			c := t[j]
+			if c == '|' {
+				inq = !inq
+			}
+			if inq {
+				continue
+			}
+			if c == '(' {
+				depth++
+			} else if c == ')' {
+				depth--
+				if depth == 0 {
+					break
+				}
+			}
+		}
+		if j >= len(t) {
+			continue
+		}
+		term := t[i : j+1]
+		parts := splitArgs(term[len("(select ") : len(term)-1])
+		if len(parts) != 2 {
+			continue
+		}
+		if strings.Contains(parts[1], q) && !strings.Contains(parts[0], q) && !strings.Contains(term, "(forall") && !strings.Contains(term, "(exists") && !seen[term] {
+			seen[term] = true
+			out = append(out, term)
+		}
+	}
+	return out
+}
+
+// instantiateForalls: replace every single-variable BV64 universal quantifier in t by its body with
+// the bound variable substituted by idx (generation-time instantiation: solvers normalise bit-vector
+// arithmetic in ground terms, which defeats syntactic trigger matching).
+func instantiateForalls(t, idx string) (string, bool) {
+	changed := false
+	for guard := 0; guard < 8; guard++ {
+		i := strings.Index(t, "(forall ((q_")
+		if i < 0 {
+			break
+		}
+		// binder list
+		j := i + len("(forall (")
+		depth, k := 0, j
+		for ; k < len(t); k++ {
+			if t[k] == '(' {
+				depth++
+			} else if t[k] == ')' {
+				depth--
+				if depth < 0 {
+					break
+				}
+			}
+		}
+		binders := t[j:k] // e.g. (q_i!38 (_ BitVec 64))
+		parts := splitArgs(binders)
+		if len(parts) != 1 || !strings.HasSuffix(parts[0], "(_ BitVec 64))") {
+			return t, false
+		}
+		q := strings.Fields(parts[0][1:])[0]
+		// whole quantifier expression
+		depth = 0
+		endq := i
+		for ; endq < len(t); endq++ {
+			if t[endq] == '(' {
+				depth++
+			} else if t[endq] == ')' {
+				depth--
+				if depth == 0 {
+					break
+				}
+			}
+		}
+		inner := strings.TrimSpace(t[k+1 : endq])
+		if strings.HasPrefix(inner, "(! ") {
+			ps := splitArgs(inner[3 : len(inner)-1])
+			inner = ps[0]
+		}
+		inst := strings.ReplaceAll(inner, q, idx)
+		t = t[:i] + inst + t[endq+1:]
+		changed = true
+	}
+	if strings.Contains(t, "(forall") || strings.Contains(t, "(exists") {
+		return t, false
+	}
+	return t, changed
 }
